@@ -101,6 +101,12 @@ pub enum Op {
     Tick(u64),
     TouchGrammar,
     TouchLexer,
+    /// the source file disappears (a later edit re-creates it)
+    RemoveGrammarSource,
+    RemoveLexerSource,
+    /// the builder is pointed at another file of the same name in another directory (created, on
+    /// first use, as a variant of the current grammar with the same tokens and a very old stamp)
+    SwitchGrammarFile,
     DeleteParserOut,
     DeleteLexerOut,
     /// fault: None | ("error"|"crash", byte limit)
@@ -251,7 +257,7 @@ pub fn execute(exe: &Path, sc: &BScenario, dir: &Path) -> BReport {
     let clean = dir.join("clean");
     std::fs::create_dir_all(&src).unwrap();
     std::fs::create_dir_all(&out).unwrap();
-    let gy = src.join("g.y");
+    let mut gy = src.join("g.y");
     let gl = src.join("g.l");
     let py = out.join("g.y.rs");
     let pl = out.join("g.l.rs");
@@ -355,6 +361,30 @@ pub fn execute(exe: &Path, sc: &BScenario, dir: &Path) -> BReport {
                 stamp(&gl, now);
                 dirty = true;
             }
+            Op::RemoveGrammarSource => {
+                let _ = std::fs::remove_file(&gy);
+                dirty = true;
+                *rep.probes.entry("source_files_removed").or_insert(0) += 1;
+            }
+            Op::RemoveLexerSource => {
+                let _ = std::fs::remove_file(&gl);
+                dirty = true;
+                *rep.probes.entry("source_files_removed").or_insert(0) += 1;
+            }
+            Op::SwitchGrammarFile => {
+                let other = if gy.starts_with(&src) { dir.join("alt").join("g.y") } else { src.join("g.y") };
+                if !other.exists() {
+                    let _ = std::fs::create_dir_all(other.parent().unwrap());
+                    let (base, hdr) = (gname.0.split(['#', '@']).next().unwrap_or("g0-calc").to_string(), gname.1);
+                    std::fs::write(&other, grammar_text(&base, hdr).replace("\"INT\" { 0 }", "\"INT\" { 424242 }")).unwrap();
+                    // older than anything the history has produced
+                    stamp(&other, 1);
+                }
+                gy = other;
+                gname = (format!("{}@{}", gname.0.split('@').next().unwrap_or(""), if gy.starts_with(&src) { "src" } else { "alt" }), gname.1);
+                dirty = true;
+                *rep.probes.entry("grammar_path_switched_to_a_same_named_file").or_insert(0) += 1;
+            }
             Op::DeleteParserOut => {
                 let _ = std::fs::remove_file(&py);
                 prov_y = None;
@@ -387,7 +417,7 @@ pub fn execute(exe: &Path, sc: &BScenario, dir: &Path) -> BReport {
                 // (an input of the token-map step only: no part of what the parser or the lexer is
                 // generated from)
                 eff.token_map_rename = None;
-                let key_y = Key(gsrc.clone(), format!("{:?}", eff));
+                let key_y = Key(gsrc.clone(), format!("{:?}|{}", eff, if gy.starts_with(&src) { "src" } else { "alt" }));
                 let key_l = Key(format!("{gsrc}\u{0}{lsrc}"), format!("{:?}|{:?}|{:?}", eff.yacckind, eff.storaget, lopts));
                 let before_y = (std::fs::read(&py).ok(), mtime_ns(&py));
                 let before_l = (std::fs::read(&pl).ok(), mtime_ns(&pl));
@@ -778,7 +808,27 @@ pub fn generate(r: &mut Rng, max_ops: usize) -> BScenario {
         ops.push(Op::Build(None));
     }
     let hash_seed = r.next();
-    BScenario { hash_seed, ops, symlinked_sources: r.chance(20), layouts: vec![] }
+    let symlinked_sources = r.chance(20);
+    // drawn last, so that histories without them are what they were before these operations existed
+    for (p, pick) in [(12u64, 0u64), (12, 1)] {
+        if r.chance(p) && ops.len() >= 2 {
+            let at = 1 + r.below(ops.len() as u64 - 1) as usize;
+            let op = if pick == 0 {
+                if r.chance(65) {
+                    Op::RemoveGrammarSource
+                } else {
+                    Op::RemoveLexerSource
+                }
+            } else {
+                Op::SwitchGrammarFile
+            };
+            ops.insert(at, op);
+            if !matches!(ops.last(), Some(Op::Build(_))) {
+                ops.push(Op::Build(None));
+            }
+        }
+    }
+    BScenario { hash_seed, ops, symlinked_sources, layouts: vec![] }
 }
 
 pub fn generate_layouts(r: &mut Rng) -> BScenario {
@@ -1089,7 +1139,7 @@ pub fn check_main(tier: &str) -> i32 {
         seed,
         evaluations: count,
         distinct_nontrivial: t.digests.len() as u64,
-        rule: format!("history i of stream VERIF_SEED: <= {max_ops} operations from {{edit grammar ({} valid, 4 invalid variants, with/without %grmtools header), edit lexer (5 valid, 3 invalid), set a parser option ({} keys), set a lexer option ({} keys: every CTLexerBuilder setter except lexerkind), switch flow, tick 0/1ns/1us/1s/1h, touch, delete an output, build with no fault / short-write error / crash at byte n / one short write without error at byte n (libc `write` interposed in the child)}}; after every build a clean build of the same sources and settings into an empty directory (parser, lexer and the CTTokenMapBuilder module are compared; a build that prints cargo:rerun-if-changed for one source must print it for both). One history in five reaches its sources through symbolic links (edits go to the target); one grammar has 220 tokens (a cache comment of several KiB). A further {} *layout histories* move the (unedited) sources between sub-directories of src/ and build with grammar_in_src_dir / lexer_in_src_dir into one persistent OUT_DIR and an empty one. Non-trivial = the history contains a successful build after a change to the parser's inputs; distinct = distinct operation sequence.", GRAMMARS.len() + 1, POPT_POOL.len(), LOPT_POOL.len(), count / 16),
+        rule: format!("history i of stream VERIF_SEED: <= {max_ops} operations from {{edit grammar ({} valid, 4 invalid variants, with/without %grmtools header), edit lexer (5 valid, 3 invalid), set a parser option ({} keys), set a lexer option ({} keys: every CTLexerBuilder setter except lexerkind), switch flow, tick 0/1ns/1us/1s/1h, touch, delete an output, remove a source file, point the builder at a same-named older grammar file in another directory, build with no fault / short-write error / crash at byte n / one short write without error at byte n (libc `write` interposed in the child)}}; after every build a clean build of the same sources and settings into an empty directory (parser, lexer and the CTTokenMapBuilder module are compared; a build that prints cargo:rerun-if-changed for one source must print it for both). One history in five reaches its sources through symbolic links (edits go to the target); one grammar has 220 tokens (a cache comment of several KiB). A further {} *layout histories* move the (unedited) sources between sub-directories of src/ and build with grammar_in_src_dir / lexer_in_src_dir into one persistent OUT_DIR and an empty one. Non-trivial = the history contains a successful build after a change to the parser's inputs; distinct = distinct operation sequence.", GRAMMARS.len() + 1, POPT_POOL.len(), LOPT_POOL.len(), count / 16),
         samples: t.samples.clone(),
         extra,
         assumptions: vec!["mtimes are the simulator's clock; backward or coarse file-system clocks are not modelled".into(), "one build per child process (the builders refuse a second build to the same path in one process)".into(), "byte equality is unmasked: all children share one lrpar/lrlex build and hence one embedded build timestamp".into()],
